@@ -9,6 +9,7 @@
       repbad <old parsable?> <old fp>
       sni <name>
       auth <authority> <name>...
+      authsni <authority> <sni>         authority_matches_sni (the legacy exact predicate)
     obs: ok [<fp>] | err | fp <fp> <key> <name>... | dangling <fp> | none | some <entry> *)
 From Coq Require Import List Arith ZArith NArith String Bool.
 From SV Require Import Common.Tok Common.Trie C17.Model.
@@ -70,6 +71,11 @@ Definition step (st : rstate) (op : list tok) : rstate * list tok :=
           end
         | None => (st, [TS "none"])
         end
+      | _ => bad
+      end
+    else if name =? "authsni" then
+      match args with
+      | [TB a; TB sni] => (st, [tn_bool (authority_matches_sni a sni)])
       | _ => bad
       end
     else if name =? "auth" then
